@@ -11,6 +11,7 @@ import (
 	"go/ast"
 	"go/parser"
 	"go/printer"
+	"crypto/sha256"
 	"go/token"
 	"os"
 	"os/exec"
@@ -470,6 +471,8 @@ func bodyClass(fd *ast.FuncDecl) string {
 	return ".other"
 }
 
+var skeletonText string
+
 func main() {
 	repo := flag.String("repo", "/repo", "repository root")
 	out := flag.String("out", "", "output file (Generated.lean)")
@@ -836,6 +839,18 @@ func main() {
 	w("  recursionDecrements := %v\n  recursiveCalls := %d\n  depthZeroTests := %d\n", decrements, nRec, zeroTests)
 	w("  allocAfterSizeCheck := %v\n  allocSitesSized := %d\n", allocOK, allocSites)
 	w("  typedAllocOK := %v\n  typedAllocSites := %d\n", typedAllocOK, typedAllocSites)
+	// fingerprints of the control structure of the functions the hand-written model describes
+	var skDump strings.Builder
+	dnames := []string{"tDecoder.Decode", "tDecoder.decodeType", "decodeStringNoCopy", "decodeFixedSizeTypes", "skipUnknown", "tDecoder.mallocIfPointer", "tDecoder.Malloc"}
+	dfds := []*ast.FuncDecl{dec, dty, findFunc(rf, "decodeStringNoCopy"), findFunc(rf, "decodeFixedSizeTypes"), findFunc(rf, "skipUnknown"), findMethod(rf, "tDecoder", "mallocIfPointer"), findMethod(rf, "tDecoder", "Malloc")}
+	w("  decoderSkeleton := \"%s\"\n", skeletonHash("decoder", dfds, dnames, &skDump))
+	enames := []string{"appendStruct", "appendAny", "tType.EncodedSize", "tType.encodedMapSize", "tType.encodedListSize", "appendListHeader", "appendMapHeader", "Append", "EncodedSize"}
+	efds := []*ast.FuncDecl{findFunc(rf, "appendStruct"), findFunc(rf, "appendAny"), findMethod(rf, "tType", "EncodedSize"), findMethod(rf, "tType", "encodedMapSize"), findMethod(rf, "tType", "encodedListSize"), findFunc(rf, "appendListHeader"), findFunc(rf, "appendMapHeader"), findFunc(rf, "Append"), findFunc(rf, "EncodedSize")}
+	w("  encoderSkeleton := \"%s\"\n", skeletonHash("encoder", efds, enames, &skDump))
+	rnames := []string{"DoResolveFields", "lookupStructTag", "trimSpaces", "doParseType", "doParseSlice", "doMatchStruct", "readToken", "newStructDesc", "tField.fromDefsField"}
+	rfds := []*ast.FuncDecl{findFunc(df, "DoResolveFields"), findFunc(df, "lookupStructTag"), findFunc(df, "trimSpaces"), findFunc(df, "doParseType"), findFunc(df, "doParseSlice"), findFunc(df, "doMatchStruct"), findFunc(df, "readToken"), findFunc(rf, "newStructDesc"), findMethod(rf, "tField", "fromDefsField")}
+	w("  resolverSkeleton := \"%s\"\n", skeletonHash("resolver", rfds, rnames, &skDump))
+	skeletonText = skDump.String()
 	top := findFunc(rf, "Decode")
 	w("  topLevelUsesLimit := %v\n", contains(top, `d\.Decode\(b, rv\.UnsafePointer\(\), sd, maxDepthLimit\)`))
 	// C08
@@ -918,7 +933,7 @@ func main() {
 	// C18 escape facts
 	hot, allHeap := escapeFacts(*repo, rf)
 	w("  hotPathHeapSites := %d\n  hotPathHeapSiteList := [%s]\n  escapeAnalysisRan := %v\n", len(hot), strings.Join(hot, ", "), allHeap >= 0)
-	w("}\n\nend Frugal.Generated\n")
+	w("}\n\n/- control-structure skeletons behind the three fingerprints (for diffing; not read by Lean):\n%s-/\n\nend Frugal.Generated\n", strings.ReplaceAll(skeletonText, "-/", "- /"))
 
 	if *out == "" {
 		fmt.Print(g.String())
@@ -931,6 +946,93 @@ func main() {
 	} else {
 		fmt.Println("extract: unchanged", *out)
 	}
+}
+
+// skeleton: the control structure of a function — guards, switches, loops, returns and the
+// sequence of calls — as a list of normalised lines. The hand-written Lean model of the function was
+// written from (and validated against) exactly this structure; its fingerprint is an obligation.
+func skeleton(fd *ast.FuncDecl) []string {
+	if fd == nil || fd.Body == nil {
+		return []string{"<missing>"}
+	}
+	norm := func(n ast.Node) string { return strings.Join(strings.Fields(src(n)), " ") }
+	var out []string
+	exits := func(b *ast.BlockStmt) string {
+		if b == nil || len(b.List) == 0 {
+			return ""
+		}
+		switch l := b.List[len(b.List)-1].(type) {
+		case *ast.ReturnStmt:
+			return " => return"
+		case *ast.BranchStmt:
+			return " => " + l.Tok.String()
+		case *ast.ExprStmt:
+			if ce, ok := l.X.(*ast.CallExpr); ok && src(ce.Fun) == "panic" {
+				return " => panic"
+			}
+		}
+		return ""
+	}
+	ast.Inspect(fd.Body, func(n ast.Node) bool {
+		switch x := n.(type) {
+		case *ast.IfStmt:
+			init := ""
+			if x.Init != nil {
+				init = norm(x.Init) + "; "
+			}
+			out = append(out, "if "+init+norm(x.Cond)+exits(x.Body))
+		case *ast.SwitchStmt:
+			t := ""
+			if x.Tag != nil {
+				t = norm(x.Tag)
+			}
+			out = append(out, "switch "+t)
+		case *ast.TypeSwitchStmt:
+			out = append(out, "typeswitch")
+		case *ast.CaseClause:
+			var cs []string
+			for _, e := range x.List {
+				cs = append(cs, norm(e))
+			}
+			out = append(out, "case "+strings.Join(cs, ","))
+		case *ast.ForStmt:
+			c := ""
+			if x.Cond != nil {
+				c = norm(x.Cond)
+			}
+			out = append(out, "for "+c)
+		case *ast.RangeStmt:
+			out = append(out, "range "+norm(x.X))
+		case *ast.ReturnStmt:
+			var rs []string
+			for _, e := range x.Results {
+				rs = append(rs, norm(e))
+			}
+			out = append(out, "return "+strings.Join(rs, ", "))
+		case *ast.CallExpr:
+			out = append(out, "call "+norm(x.Fun))
+		case *ast.DeferStmt:
+			out = append(out, "defer")
+		case *ast.FuncLit:
+			out = append(out, "funclit")
+		}
+		return true
+	})
+	return out
+}
+
+func skeletonHash(label string, fds []*ast.FuncDecl, names []string, dump *strings.Builder) string {
+	h := sha256.New()
+	for i, fd := range fds {
+		lines := skeleton(fd)
+		fmt.Fprintf(dump, "-- %s / %s\n", label, names[i])
+		for _, l := range lines {
+			fmt.Fprintf(h, "%s\n", l)
+			fmt.Fprintf(dump, "--   %s\n", l)
+		}
+		fmt.Fprintf(h, "--\n")
+	}
+	return fmt.Sprintf("%x", h.Sum(nil))[:24]
 }
 
 func mustExpr(s string) ast.Expr {
